@@ -475,6 +475,7 @@ def op (st : Unit) (toks : List String) : Unit × String :=
   let r : String :=
     match pre with
     | "panic" :: _ => "SPECFAIL panic"
+    | ["glue", "reuse"] => if post == ["ok"] then "ok reuse=1" else s!"SPECFAIL glue reuse {post}"
     | ["glue"] =>
       -- unknown kinds are rejected; the default fusion configuration is (1, 1, 60)
       if post == ["err", "err", "err", "3ff0000000000000", "3ff0000000000000", "404e000000000000"]
